@@ -61,8 +61,8 @@ class Model(abc.ABC):
         if data.dtype.kind not in ('b', 'i', 'u', 'f', 'c'):
             raise ValueError(f'Model should take numerical ndarray as input data, not {data.dtype}).')
 
-        if axis == -1:
-            axis = len(data.shape) - 1
+        if axis < 0:
+            axis = len(data.shape) + axis
 
         results = self._compute(data, axis=axis)
 
